@@ -281,3 +281,72 @@ PROPS = {
                        "The clauses, not the run-time behaviour, are decided.",
     },
 }
+
+
+# ------------------------------------------------------------------------------------------------ anchor view
+#
+# The properties share mechanisms: adj_envelope.h is anchored by C01 C02 C03 C04 C08 C20, network.cpp by twelve
+# properties, gkfparser.cpp by C07 C10 C11 C13.  A structural clause that fails in an anchored file is a necessary
+# condition of every property anchored there (the regularisation subset lost in AdjEnvelope::reset breaks C01, C02
+# and C03 alike), whichever property's rule list the rule family was first written for.  So every quick check also
+# runs the other rule families and keeps the instances located in *its own* anchor files (properties.jsonl,
+# anchors.files).  Verdicts are the same instances the other checks report; only the attribution is wider.
+# A foreign family that cannot run on a tree is a note here (it is exit 2 in the check that owns it).
+
+def _anchor_files():
+    import json as _json
+    out = {}
+    path = os.path.join(os.path.dirname(os.path.abspath(__file__)), "..", "properties.jsonl")
+    for line in open(path):
+        pr = _json.loads(line)
+        out[pr["id"]] = set(pr["anchors"]["files"])
+    return out
+
+
+_RAW = {id(step_rule): step.rule_step, id(scratch_rule): step.rule_scratch}
+
+
+def _all_families():
+    seen, out = set(), []
+    for spec in PROPS.values():
+        for r in spec["rules"]:
+            r = _RAW.get(id(r), r)
+            if id(r) not in seen and getattr(r, "__name__", "") != "_anchor_view":
+                seen.add(id(r))
+                out.append(r)
+    for r in (step.rule_step, step.rule_scratch, idx.rule_idx_all, idx2.rule_idx2_network, fin.rule_fin):
+        if id(r) not in seen:
+            seen.add(id(r))
+            out.append(r)
+    return out
+
+
+def _anchor_view(ctx):
+    if ctx.tier != "quick":
+        return None          # the thorough tier validates every family under the properties its mutants name
+    files = _anchor_files().get(ctx.prop, set())
+    own_rules = {id(r) for r in PROPS[ctx.prop]["rules"] if id(r) not in _RAW}     # filtered views are re-run unfiltered
+    have = {i.key for i in ctx.instances}
+    sub = _engine.Ctx(ctx.facts, ctx.root, ctx.prop, "anchor")
+    sub._attr_handlers = getattr(ctx, "_attr_handlers", None)
+    for r in _all_families():
+        if id(r) in own_rules:
+            continue
+        sub.run_rule(r)
+    added = 0
+    for i in sub.instances:
+        f = (i.where or "").split(":")[0]
+        if f in files and i.key not in have:
+            have.add(i.key)
+            ctx.instances.append(i)
+            added += 1
+    for b in getattr(sub, "broken", []):
+        ctx.note("anchor view: a rule family of another property could not run on this tree: %s" % b)
+    ctx.analysed_functions |= sub.analysed_functions
+    return {"anchor_view_instances": added, "anchor_files": sorted(files)}
+
+
+for _p in list(PROPS):
+    PROPS[_p]["rules"] = list(PROPS[_p]["rules"]) + [_anchor_view]
+    PROPS[_p]["explanation"] += (" Anchor view: instances of the rule families written for other properties that lie in this "
+                                 "property's anchor files are reported here too (shared mechanisms; quick tier).")
